@@ -82,6 +82,14 @@ Proof.
   destruct (step f l s) as [s1|] eqn:E; [|discriminate]. apply (IH s1 s' Hd); [eapply no_panic_step; eauto|assumption].
 Qed.
 
+Lemma no_hard_exit_run f ls : forall s s', pf_handler_own_counter f = true -> s_hardexit s = false ->
+  run f ls s = Some s' -> s_hardexit s' = false.
+Proof.
+  induction ls as [|l ls IH]; intros s s' Hc Hh H; cbn in H; [inversion H; subst; assumption|].
+  destruct (step f l s) as [s1|] eqn:E; [|discriminate].
+  apply (IH s1 s' Hc); [eapply no_hard_exit_step; eauto|assumption].
+Qed.
+
 (* ---- the written file consists of whole packets -------------------------------------------- *)
 From FP Require Import Model.Base Model.Rdh Model.Scanner Model.Writer Proofs.C08_proofs.
 
